@@ -43,6 +43,10 @@ P = {
          "re-establishes the invariant; Freelist.v: the persisted list is backend independent. Tie: every history is run under K option schedules re-drawn at every open (backend, freelist-sync, grow-sync, map size, "
          "StrictMode, page size, read-only opens with/without preload) and compared with the one Spec run; accounting on every image; the code's free list after every open vs the decoder's scan.",
          "Mlock is not exercised (needs RLIMIT_MEMLOCK); physical statistics legitimately differ between schedules and are compared with the page-level model instead.", "DESIGN.md §8 C13"),
+ "C14": ("Pager.v: in every state reachable from an invariant state, the pages of the version an open reader views are neither written nor reusable (so the bytes copied are the snapshot's); Layout.v: a copy whose "
+         "slot 0 holds the snapshot's meta and slot 1 the same meta with txid-1 opens at slot 0. Tie: WriteTo with write transactions committed between the chunks of the copy, and CopyFile; byte count, Tx.Size, "
+         "metas, dump vs the Spec snapshot of the reader, decoder accounting, Tx.Check.",
+         "Truly concurrent writer goroutines are not used (interleaving is at chunk boundaries of the copy); remaps during a backup are avoided (they would wait for the backup's own reader).", "DESIGN.md §8 C14"),
  "C15": ("Compact.v models walk + replay on the reference map without a limit parameter (commit points cannot change Spec content). Proved: copying a bucket's entries in walk order rebuilds exactly that bucket "
          "(one level, all contents); nested sources are covered by kernel-evaluated examples and by the tie only (theorem labelled partial). Tie: library and CLI compaction for 8 limits incl. 1, 2, 7 bytes vs the "
          "extracted model run on the decoded source image; destination Tx.Check; source SHA-256 before/after.",
